@@ -2,7 +2,7 @@
 
 Crash-point enumeration: for every strategy/configuration/integrand the uninterrupted run U (final limits) is
 recorded; then for EVERY evaluation index k of U a run is stopped exactly at k (max_evaluations = n_k - 1) and
-continued with the final limits in three variants (continue directly / save_to_file -> restore_from_file -> continue
+continued with the final limits in four variants (continue directly / through performSpatiallyAdaptiv(refinement_container=...) / save_to_file -> restore_from_file -> continue
 the restored copy / save, continue the original, then restore and continue the copy).  Final refinement structure,
 scheme, combined result and point count must equal U's; a restored instance must evaluate and interpolate
 identically to the saved one.
@@ -67,6 +67,10 @@ def run_case(case):
     if variant == "continue":
         R = sa2.continue_adaptive_refinement(tol=tol, max_evaluations=mx_final)
         _compare(u, _final(sa2, R, strat), "stop at evaluation %d, continue" % k, key, fails)
+    elif variant == "perform_with_refinement_container":
+        # the documented other way to continue: hand the refinement of the stopped run back to performSpatiallyAdaptiv
+        R = sa2.performSpatiallyAdaptiv(lm[0], lm[1], eo2, tol=tol, max_evaluations=mx_final, print_output=False, refinement_container=A[0])
+        _compare(u, _final(sa2, R, strat), "stop at evaluation %d, performSpatiallyAdaptiv(refinement_container=...)" % k, key, fails)
     else:
         sa2.save_to_file(path)
         if variant == "save_continue_original_then_copy":
@@ -108,7 +112,7 @@ def main(ctx):
         ctx.absorb(bc, res, group="uninterrupted")
         nk = res.get("nk") or []
         for k in range(len(nk) - 1):           # stopping at the last evaluation is the uninterrupted run itself
-            for variant in ("continue", "save_restore_continue", "save_continue_original_then_copy"):
+            for variant in ("continue", "save_restore_continue", "save_continue_original_then_copy", "perform_with_refinement_container"):
                 cases.append({"config": dict(bc["config"], stop_at=k, variant=variant)})
     results = ctx.map(cases, chunksize=1)
     for case, res in zip(cases, results):
